@@ -109,7 +109,11 @@ pub fn gen_base(rng: &mut Rng, cfg: &BaseCfg) -> (J, StdTable, Sel, Shape) {
     };
     if shape == Shape::Join || shape == Shape::JoinAggregate {
         let un = 1 + rng.below(14);
-        joined = Some(std_lines(rng, &t, un, &dc));
+        let mut ul = std_lines(rng, &t, un, &dc);
+        if rng.chance(1, 5) { for _ in 0..(1 + rng.below(3)) { let at = rng.below(ul.len() + 1); ul.insert(at, rng.pick(&["", "", " ", "garbage", "{}"]).to_string()); } }
+        // repeated log lines in the joined file: every copy is a partner of its own
+        if !ul.is_empty() && rng.chance(1, 3) { for _ in 0..(1 + rng.below(3)) { let l = ul[rng.below(ul.len())].clone(); let at = rng.below(ul.len() + 1); ul.insert(at, l); } }
+        joined = Some(ul);
         let key = *rng.pick(&["k", "g"]);
         sel.join = Some(Join { outer: shape == Shape::Join && rng.chance(1, 3), table: "u".into(), file: "@JOINED@".into(), left: ("t".into(), key.into()), right: ("u".into(), key.into()) });
         if shape == Shape::Join {
